@@ -19,8 +19,9 @@ pub trait Dom: num::Float + std::fmt::Debug + Send + 'static {
     fn u(n: usize) -> Self { <Self as NumCast>::from(n).expect("usize") }
     /// exact rational literal n/d
     fn r(n: i64, d: i64) -> Self;
-    /// bytes currently live in tracked regions (C18)
     fn term_id(self) -> u64;
+    /// if the value is structurally `num / sqrt(rad)` (a term the real code built), its two parts
+    fn ratio_sqrt_parts(self) -> Option<(Self, Self)> { None }
 }
 
 impl Dom for Sym {
@@ -39,6 +40,10 @@ impl Dom for Sym {
     fn note(s: String) { sym::with(|x| if x.stats.events.len() < 64 { x.stats.events.push(s) }) }
     fn r(n: i64, d: i64) -> Sym { sym::cst(BigRational::new(n.into(), d.into())) }
     fn term_id(self) -> u64 { self.0 as u64 }
+    fn ratio_sqrt_parts(self) -> Option<(Sym, Sym)> {
+        if let sym::Node::Div(a, b) = sym::node_of(self) { if let sym::Node::Sqrt(c) = sym::node_of(Sym(b)) { return Some((Sym(a), Sym(c))); } }
+        None
+    }
 }
 
 #[derive(Default)]
